@@ -46,7 +46,12 @@ def run_rules(model, prop, tier):
         except AnalysisError as e:
             ctx.analysis_errors.append(str(e))
     if not ctx.analysis_errors:
-        ctx.check_floors()
+        try:
+            ctx.check_floors()
+        except AnalysisError as e:
+            # a rule that stopped early because it found a violation has fewer instances than usual: with a violation
+            # to report this is exit 1 (below), without one it is "no verdict"
+            ctx.analysis_errors.append(str(e))
     for what in sorted(set(model.inlined)):
         ctx.note('read in normal form (new relative to the reference tree): %s' % what)
     for what in getattr(model, 'renamed_back', []):
